@@ -276,7 +276,14 @@ func runReaderHistoryInner(cs *drv.Case, ops []rOp, spec srcSpec, o readerOpts) 
 	} else {
 		src = &doubles.Source{Len: spec.Len, ErrAt: spec.ErrAt, Err: srcErr, WithData: spec.WithData, Sched: spec.Sched, ZeroMax: spec.ZeroMax, ZeroRun: spec.ZeroRun,
 			Endless0: spec.Endless0, R: cs.R, Budget: 10*spec.Len + 100000 + spec.ZeroRun*(spec.Len+100), Trace: cs.Tracef}
-		rd = bufiox.NewDefaultReader(src)
+		if srcErr != io.EOF && cs.R.Intn(3) == 0 {
+			src.AfterErr = io.EOF // error once, plain EOF on later reads: the first error is the source's error
+		}
+		var rdr io.Reader = src
+		if cs.R.Intn(6) == 0 {
+			rdr = &doubles.LenReader{Reader: src, Staged: cs.R.Intn(8)} // a Len method that means something else
+		}
+		rd = bufiox.NewDefaultReader(rdr)
 	}
 	if san.PoolShim {
 		san.PoolReset()
